@@ -34,6 +34,8 @@ def make(cls, rnd, variant=None):
         return (r, "plain", None) if r is not None else None
     if cls == "flatten3":
         return GM.gen_flatten3_discordant(rnd), "plain", None
+    if cls == "flatten-lookup":
+        return GM.gen_flatten_lookup(rnd), "plain", None
     if cls == "double-flatten":
         for _ in range(60):
             b, info = GE.gen_plain(rnd, products_only=True, allow_take=False, max_ranks=4)
